@@ -19,7 +19,7 @@ import aw_datastore.storages.sqlite as SQ
 PROP = "C06"
 EVENT_WRITES = ["insert_one", "insert_many_new", "insert_many_120", "insert_many_upsert", "insert_many_upsert_only", "replace", "replace_last", "delete_live", "delete_missing"]
 EVENT_READS = ["get", "get_by_id", "get_eventcount"]
-BUCKET_OPS = ["create_bucket", "update_bucket", "delete_bucket", "delete_bucket_2001_events"]
+BUCKET_OPS = ["create_bucket", "update_bucket", "update_bucket_data_only", "update_bucket_each_single_field", "delete_bucket", "delete_bucket_2001_events"]
 FAILING_BUCKET_OPS = ["delete_missing_bucket", "create_duplicate_bucket", "update_missing_bucket"]
 N_BIG = 2001
 LIMIT = 50  # documented batch size
@@ -188,6 +188,11 @@ def h_step(x, op, lazy=True, na=2, flush_first=False, other_store=False):
             ds.create_bucket("C", "t", "c", "h", created=ST.T0)
         elif op == "update_bucket":
             ds.update_bucket("A", name="other")
+        elif op == "update_bucket_data_only":
+            ds.update_bucket("A", data={"k": 2})
+        elif op == "update_bucket_each_single_field":
+            field = ["type_id", "client", "hostname", "name", "data"][x.choice("field", 5)]
+            ds.update_bucket("A", **{field: ({"k": 3} if field == "data" else "changed")})
         elif op in ("delete_bucket", "delete_bucket_2001_events"):
             ds.delete_bucket("A")
         else:
